@@ -253,8 +253,14 @@ input (the fuel `3·|b| + 4` covers the at most three nested calls per consumed 
 theorem valid_no_fuel (o : VOpts) (b : Bytes) : (validText o b).2 ≠ .fuel :=
   JsonV.Lemmas.WireFuel.validText_no_fuel o b
 
+/-- Soundness of the stream recogniser: a ReadValue loop that ends with io.EOF has read a concatenation of
+texts of the grammar separated by optional whitespace — io.EOF is reported only at a value boundary. -/
+theorem stream_sound (o : VOpts) (b : Bytes) (cnt off : Nat) (h : stream o b = (cnt, off, .ioEOF)) :
+    JStream (gopts o) maxNestingDepth (nameKey o) b :=
+  JsonV.Lemmas.WireFuel.stream_sound' o b cnt off h
+
 /-- The full statements that are NOT proved.  `valid_complete_full` is the converse of `valid_sound`
-(including "`fuelFor` suffices"); `stream_iff_full` is the stream recogniser; `token_value_full` says that the
+(including "`fuelFor` suffices"); `stream_iff_full` is the stream recogniser (its ⇒ half is `stream_sound`); `token_value_full` says that the
 token path (Model/TokenLoop.lean) and the value path give the same verdict.  They are validated by the
 correspondence runs (the harness compares both model paths with each other and with the code on every input). -/
 def valid_complete_full : Prop :=
